@@ -4,7 +4,7 @@ CONSTANTS
   Ops <- Q_Ops
   Scheds = {"sync"}
   MaxDepth = 2
-  MaxRuns = 1
+  MaxRuns = 0
   MaxTasks = 12
   FftNeedsOneChunk = TRUE
   ChirpKeyByChannel = TRUE
@@ -20,4 +20,5 @@ PROPERTY Lazy
 PROPERTY LazyDone
 PROPERTY StaysDask
 PROPERTY ContainerOnly
+PROPERTY PersistHolds
 CHECK_DEADLOCK FALSE
